@@ -180,12 +180,8 @@ Theorem c07_random :
   Qfloor (draw_Q d * inject_Z (Z.of_N n)) = Z.of_N idx
   /\ idx < n
   /\ exists c, nth_error (b_categories b) (N.to_nat idx) = Some c
-       /\ (forall c', category_with b (c_uuid c) c' ->
-             route_random lc max_result_chars b d prev
-             = through lc max_result_chars b prev c' (N_to_text idx) (draw_text d) None [])
-       /\ (NoDup (map c_uuid (b_categories b)) -> c_uuid c <> no_uuid ->
-             route_random lc max_result_chars b d prev
-             = through lc max_result_chars b prev c (N_to_text idx) (draw_text d) None []).
+       /\ route_random lc max_result_chars b d prev
+          = through lc max_result_chars b prev c (N_to_text idx) (draw_text d) None [].
 Proof. exact random_spec. Qed.
 Print Assumptions c07_random.
 
